@@ -647,6 +647,10 @@ func symExpr(c *Ctx, v ssa.Value, rename map[string]string, bound map[ssa.Value]
 		return n + ".phi[" + strings.Join(parts, " | ") + " while " + strings.Join(conds, "&") + "]"
 	case *ssa.Convert:
 		return symExpr(c, x.X, rename, bound, depth+1)
+	case *ssa.TypeAssert:
+		return "assert(" + symExpr(c, x.X, rename, bound, depth+1) + ")"
+	case *ssa.MakeInterface:
+		return symExpr(c, x.X, rename, bound, depth+1)
 	}
 	return v.Name()
 }
